@@ -76,16 +76,21 @@ structure SegMasks where
 def signNe (a b : α) : Bool := !(eq0 (sgn a - sgn b))
 
 /-- the masks, from the observer in cylinder coordinates and the normalised dimensions
-(lengths in units of the outer radius, angles in rad and shifted into [−2π, 2π]) -/
+(lengths in units of the outer radius, angles in rad and shifted into [−2π, 2π]).
+`phi = phi_j` is the test of `determine_cases` (`|phi − phi_j| mod 2π` close to 0 or to 2π); "in between" is: strictly
+between the two bounds, or `close` to one of them — the tolerance of the surface tests and of `determine_cases`; the
+axis of a segment without bore (`r ≈ 0`, `r1 ≈ 0`: the apex line) belongs to every azimuth -/
 def segMasks (r phi z r1 r2 phi1 phi2 z1 z2 : α) : SegMasks :=
-  let eps : α := n 1 / n 100000000000000   -- 1e-14
   let phio1 := phi
   let phio2 := phi - sgn phi * n 2 * pi
-  let maskPhi1 := close phio1 phi1 || close phio2 phi1
-  let maskPhi2 := close phio1 phi2 || close phio2 phi2
-  let rIn := lt (r1 - eps) r && lt r (r2 + eps)
-  let phiIn := signNe (phio1 - phi1) (phio1 - phi2) || signNe (phio2 - phi1) (phio2 - phi2)
-  let zIn := lt (z1 - eps) z && lt z (z2 + eps)
+  let mod1 := pymod (abs (phi - phi1)) (n 2 * pi)
+  let mod2 := pymod (abs (phi - phi2)) (n 2 * pi)
+  let maskPhi1 := close mod1 (n 0) || close mod1 (n 2 * pi)
+  let maskPhi2 := close mod2 (n 0) || close mod2 (n 2 * pi)
+  let rIn := (lt r1 r && lt r r2) || close r r1 || close r r2
+  let phiIn := signNe (phio1 - phi1) (phio1 - phi2) || signNe (phio2 - phi1) (phio2 - phi2) ||
+    (close r (n 0) && close r1 (n 0))
+  let zIn := (lt z1 z && lt z z2) || close z z1 || close z z2
   let surfZ := (close z z1 || close z z2) && phiIn && rIn
   let surfR := (close r r1 || close r r2) && phiIn && zIn
   let surfPhi := (maskPhi1 || maskPhi2) && rIn && zIn
